@@ -527,6 +527,9 @@ class FixedWidthBinning(BinningBase):
     def _force_bin_existence_single(self, value, includes_right_edge=None):
         if includes_right_edge is None:
             includes_right_edge = self.includes_right_edge
+        # Locate the value in double precision, like the edges it is compared with
+        # (a float32 scalar would drag the comparisons down to float32).
+        value = float(value)
 
         if self._bin_count == 0:
             self._times_min = self._find_grid_index(value)
